@@ -6,7 +6,7 @@
     [iso g h] = some map injective on the nodes of g relabels g into h up to [geq]. *)
 From Coq Require Import List NArith ZArith Bool Arith Permutation.
 From SK Require Import lib.IRSortKeys lib.IRCore lib.IRSearch model.C18_Model proof.C18_Order proof.C18_Spec
-  proof.C18_Graph proof.C18_Canon proof.C18_Equiv proof.C18_Label proof.C18_Aut proof.C18_Invariant proof.C18_Wf proof.C18_Count proof.C18_View proof.C18_Vf2 proof.C18_Vf2Count proof.C18_Refine proof.C18_NetBip proof.C18_Net proof.C18_NetSp proof.C18_Orbits proof.C18_OrbSound proof.C18_OrbComplete proof.C18_OrbCanon proof.C18_Examples.
+  proof.C18_Graph proof.C18_Canon proof.C18_Equiv proof.C18_Label proof.C18_Aut proof.C18_Invariant proof.C18_Wf proof.C18_Count proof.C18_View proof.C18_Vf2 proof.C18_Vf2Count proof.C18_Refine proof.C18_NetBip proof.C18_Net proof.C18_NetSp proof.C18_Orbits proof.C18_OrbSound proof.C18_OrbComplete proof.C18_OrbCanon proof.C18_Maps proof.C18_Examples.
 From SK Require Import lib.C18_IRValid.
 From SK Require lib.IRInst.
 Import ListNotations.
@@ -237,3 +237,14 @@ Theorem C18_net_renamed_ids : forall (st : bool) (f : N -> N) (n : net) (lab p l
   lab' = lab /\ geq (canon_graph (view true st (rename_net f n)) p') (canon_graph (view true st n) p).
 Proof. exact net_renamed_ids_bip. Qed.
 Print Assumptions C18_net_renamed_ids.
+
+(** summary()["mappings"] (_maps_from_perms, a dict per minimal leaf; a later position overwrites an earlier one): there is
+    one mapping per minimal leaf and every reported mapping is exactly the graph, on the nodes of the view, of a
+    structure-preserving self-map. *)
+Theorem C18_mappings : forall (g : vgraph) (lab p : list N),
+  wf g -> kinds_ok g -> arcs_ok g -> fst (canon_search g) = Some (lab, p) ->
+  length (maps_from_perms p (min_leaves g)) = length (min_leaves g) /\
+  forall m, In m (maps_from_perms p (min_leaves g)) ->
+    exists s, is_aut g s /\ forall a b, In (a, b) m <-> (In a (node_ids g) /\ b = s a).
+Proof. exact mappings_spec. Qed.
+Print Assumptions C18_mappings.
